@@ -1,7 +1,25 @@
 //! Stand-in for rand 0.6: real distributions / sequences / generators, but every source of OS
 //! entropy (`thread_rng`, `FromEntropy::from_entropy`) draws from the simulated world.
 
-pub use rand_real::{distributions, prelude, rngs, seq, AsByteSliceMut, CryptoRng, Error, ErrorKind, Rng, RngCore, SeedableRng};
+pub use rand_real::{distributions, seq, AsByteSliceMut, CryptoRng, Error, ErrorKind, Rng, RngCore, SeedableRng};
+
+/// `rand::rngs` with every OS-entropy generator replaced by the simulated source
+pub mod rngs {
+    pub use super::ThreadRng;
+    pub use rand_real::rngs::{adapter, mock, SmallRng, StdRng};
+    /// OS entropy = the simulated world's entropy stream
+    pub type OsRng = super::ThreadRng;
+    pub type EntropyRng = super::ThreadRng;
+}
+
+/// `rand::prelude` with the simulated `thread_rng` / `random` / `FromEntropy`
+pub mod prelude {
+    pub use super::rngs::{SmallRng, StdRng, ThreadRng};
+    pub use super::{random, thread_rng, FromEntropy};
+    pub use rand_real::distributions::Distribution;
+    pub use rand_real::seq::{IteratorRandom, SliceRandom};
+    pub use rand_real::{CryptoRng, Rng, RngCore, SeedableRng};
+}
 
 pub trait FromEntropy: SeedableRng {
     fn from_entropy() -> Self;
@@ -15,8 +33,15 @@ impl<R: SeedableRng> FromEntropy for R {
     }
 }
 
-#[derive(Clone, Debug)]
+#[derive(Clone, Debug, Default)]
 pub struct ThreadRng;
+
+impl ThreadRng {
+    /// `OsRng::new()` / `EntropyRng::new()` in rand 0.6
+    pub fn new() -> Result<ThreadRng, Error> {
+        Ok(ThreadRng)
+    }
+}
 
 pub fn thread_rng() -> ThreadRng {
     ThreadRng
